@@ -5,6 +5,7 @@ import TonicModel.Lemmas.Health
 import TonicModel.Lemmas.HealthPark
 import TonicModel.Basic.HealthLin
 import TonicModel.Lemmas.HealthLin
+import TonicModel.Lemmas.HealthLife
 /-
 C18 — Health service reports the latest status to Check and Watch.
 Property theorems only; helper lemmas live in `Lemmas/Health*.lean`.
@@ -450,6 +451,51 @@ example :
       (exec init [.set [97] .notServing])
       [⟨[⟨.set [97] .serving, 5, 6, .done⟩], Lin.noSlot⟩,
        ⟨[⟨.watch [97], 0, 1, .subscribed⟩, ⟨.next 0, 1, 4, .value .serving⟩], Lin.noSlot⟩] = .no := by
+  decide
+
+/-! ## handles and independent pairs (audit aC18)
+
+`life` histories: several `health_reporter()` pairs in one process, reporter and client handles
+that are cloned, overwritten and dropped (all of them, too) between the health operations
+(`Model/HealthLife`).  The process model keeps one table per pair and the set of handle
+variables that hold a value; `effective p` reads, off the items addressed to pair `p` alone, the
+health operations that happened on it. -/
+
+/-- Handles and other pairs are invisible: in every `life` history, from the start of the
+process, the answers pair `p` gets are exactly the answers of one fresh table to the health
+operations that happened on `p` — whichever clone each went through, however many clones were
+made or dropped in between (also when every reporter handle is gone: the statuses stay, Check
+and the streams go on answering), whether the client a stream came from still exists, and
+whatever was done to any other pair. -/
+theorem C18_pair_is_own_history (p : Nat) (items : List LItem) :
+    sideAnswers p (lrun linit items) = Health.run init (effective p liveInit liveInit items) :=
+  (side_is_own_history p items linit).1
+
+/-- … likewise the table the pair ends with. -/
+theorem C18_pair_table_is_own_history (p : Nat) (items : List LItem) :
+    ((lexec linit items) p).h = exec init (effective p liveInit liveInit items) :=
+  (side_is_own_history p items linit).2
+
+/-- Hence every pair's answers pass the property's clauses in every `life` history, and are the
+log-scanning oracle's. -/
+theorem C18_pair_answers_allowed (p : Nat) (items : List LItem) :
+    allowedTrace [] ((effective p liveInit liveInit items).zip (sideAnswers p (lrun linit items))) = true ∧
+    sideAnswers p (lrun linit items) = Spec.Health.run [] (effective p liveInit liveInit items) := by
+  rw [C18_pair_is_own_history]
+  exact ⟨C18_answers_allowed _, C18_refines_oracle _⟩
+
+-- non-vacuity: pair 0 sets `a`, drops both reporter handles (a later set through an empty
+-- variable does not happen), pair 1 never hears of `a`; pair 0 still answers NOT_SERVING.
+example :
+    lrun linit [⟨0, .rep 0 (.set [97] .notServing)⟩, ⟨0, .rdrop 0⟩, ⟨0, .rdrop 1⟩, ⟨0, .rep 1 (.set [97] .serving)⟩,
+        ⟨1, .cli 0 (.check [97])⟩, ⟨0, .cli 1 (.check [97])⟩, ⟨0, .rclone 2 0⟩]
+      = [(0, .eff .done), (0, .ok), (0, .ok), (0, .noh), (1, .eff .notFound), (0, .eff (.status .notServing)),
+         (0, .noh)] := by
+  decide
+example :
+    effective 0 liveInit liveInit [⟨0, .rep 0 (.set [97] .notServing)⟩, ⟨0, .rdrop 0⟩, ⟨0, .rdrop 1⟩,
+        ⟨0, .rep 1 (.set [97] .serving)⟩, ⟨1, .cli 0 (.check [97])⟩, ⟨0, .cli 1 (.check [97])⟩]
+      = [.set [97] .notServing, .check [97]] := by
   decide
 
 end C18
